@@ -9,6 +9,7 @@ import (
 	"bytes"
 	"fmt"
 	"os"
+	"os/exec"
 	"path/filepath"
 	"strings"
 	"sync"
@@ -94,13 +95,38 @@ func alone(ops []int) []byte {
 	return res
 }
 
+// cold runs one pair as the very first use of the library in a fresh process (no prelude, nothing computed
+// before): state that the library builds lazily on first use is then built by two goroutines at once, which is
+// where an unsynchronised lazy initialisation races. Results are compared with "alone" computed afterwards.
+func cold(a, b int) int {
+	res, sh := racePair([]int{a}, []int{b})
+	status := 0
+
+	if !bytes.Equal(res[0], alone([]int{a})) || !bytes.Equal(res[1], alone([]int{b})) {
+		fmt.Println("COLD-RESULT-DIFFERS")
+		status = 3
+	}
+
+	if !bytes.Equal(sh.Snapshot(), conc.NewShared().Snapshot()) {
+		fmt.Println("COLD-SHARED-MODIFIED")
+		status = 3
+	}
+
+	return status
+}
+
 func main() {
+	if len(os.Args) == 4 && os.Args[1] == "cold" {
+		var a, b int
+		fmt.Sscan(os.Args[2], &a)
+		fmt.Sscan(os.Args[3], &b)
+		os.Exit(cold(a, b))
+	}
+
 	if len(os.Args) < 2 || os.Args[1] != "C16race" {
 		fmt.Fprintln(os.Stderr, "usage: vrace C16race   (replay: re-run the check; race reports are not tied to a schedule)")
 		os.Exit(2)
 	}
-
-	prelude.HostileCaller()
 
 	r := ev.New("C16", "C16race", verifrt.Variant+"+race")
 	logPrefix := os.Getenv("VERIF_RACELOG")
@@ -109,6 +135,45 @@ func main() {
 		r.ToolError("VERIF_RACELOG / GORACE log_path not set: race reports cannot be attributed")
 		os.Exit(r.Finish())
 	}
+
+	// ---- cold starts: each pair (a, a) and (a, a+1) in a process of its own, before anything else touched the library
+	nCold := 0
+
+	type coldJob struct{ a, b int }
+
+	var jobs []coldJob
+
+	for a := range conc.Ops {
+		for _, b := range []int{a, (a + 1) % len(conc.Ops)} {
+			jobs = append(jobs, coldJob{a, b})
+		}
+	}
+
+	nCold = len(jobs)
+
+	ev.ParFor(len(jobs), func(_, i int) {
+		a, b := jobs[i].a, jobs[i].b
+		lp := fmt.Sprintf("%s-cold-%d-%d", logPrefix, a, b)
+		cmd := exec.Command(os.Args[0], "cold", fmt.Sprint(a), fmt.Sprint(b))
+		cmd.Env = append(os.Environ(), "GORACE=halt_on_error=0 exitcode=0 log_path="+lp, "GOMAXPROCS=4")
+		out, err := cmd.CombinedOutput()
+		r.Transitions.Add(2)
+		r.Evals.Add(1)
+
+		name := conc.Ops[a].Name + " || " + conc.Ops[b].Name
+		c := map[string]string{"op": "cold", "a": fmt.Sprint(a), "b": fmt.Sprint(b), "names": name}
+
+		if raceLogSize(lp) > 0 {
+			r.Violation("data-race/on-first-use", fmt.Sprintf("pair %s as the first use of the library in a fresh process: race detector report:\n%s", name, raceLogTail(lp, 0)), c)
+		}
+
+		if err != nil || len(out) > 0 {
+			r.Violation("concurrent/first-use-result-differs-from-running-alone", fmt.Sprintf("pair %s in a fresh process: %v %s", name, err, out), c)
+		}
+	})
+
+	r.Bound("cold_start_processes", nCold)
+	prelude.HostileCaller()
 
 	reps := 2
 	if ev.Thorough() {
